@@ -1,33 +1,43 @@
+// gv is the driver of the solver-based checks of /verif.
+//
+//	gv check <id> [--tier quick|thorough]
+//	gv replay <file>
+//	gv list
 package main
 
 import (
+	"flag"
 	"fmt"
 	"os"
+	"strconv"
 
-	"verif/gosym/solver"
 	"verif/gv"
 )
 
 func main() {
-	if len(os.Args) > 1 && os.Args[1] == "try" {
-		t := &gv.Target{ModDir: "/repo", PkgDir: "/repo/internal/lexer/items", PkgPath: "github.com/goccmack/gocc/internal/lexer/items", PkgName: "items", Harness: []string{"/verif/harness/items/c18.go"}}
-		prog, pkg, err := t.Load()
-		if err != nil {
-			fmt.Println(err)
-			os.Exit(2)
+	if len(os.Args) < 2 {
+		fmt.Println("usage: gv check <id> [--tier quick|thorough] | gv replay <file> | gv list")
+		os.Exit(2)
+	}
+	switch os.Args[1] {
+	case "list":
+		for _, id := range gv.CheckIDs() {
+			fmt.Println(id)
 		}
-		res, err := gv.Exec(prog, pkg, "github.com/goccmack/gocc", gv.SymRun{Harness: os.Args[2], Params: map[string]int{"N": atoi(os.Getenv("N"))}})
-		if err != nil {
-			fmt.Println("ERR", err)
+	case "check":
+		fs := flag.NewFlagSet("check", flag.ExitOnError)
+		tier := fs.String("tier", os.Getenv("VERIF_TIER"), "quick or thorough")
+		id := os.Args[2]
+		fs.Parse(os.Args[3:])
+		if *tier == "" {
+			*tier = "quick"
 		}
-		e := res.Engine
-		fmt.Printf("exec %.2fs instrs=%d blocks=%d merges=%d terms=%d asserts=%d panics=%d unwinds=%d covers=%d\n", res.ExecS, e.Instrs, e.Blocks, e.Merges, e.S.Created, len(e.Asserts), len(e.Panics), len(e.Unwinds), len(e.Covers))
-		dir, _ := os.MkdirTemp("", "gvq")
-		res.Solve(solver.Portfolio, dir, 120, 16)
-		for _, o := range res.Outcomes {
-			fmt.Printf("%-30s %-6s expect %-5s %.2fs %s | %s %s\n", o.Ob.Name, o.Status, o.Ob.Expect, o.Res.Seconds, o.Res.Solver, o.Ob.Rec.Msg, o.Ob.Rec.Pos)
-		}
+		seed, _ := strconv.Atoi(os.Getenv("VERIF_SEED"))
+		os.Exit(gv.RunCheck(id, *tier, seed))
+	case "replay":
+		os.Exit(gv.ReplayFileCmd(os.Args[2]))
+	default:
+		fmt.Println("unknown command", os.Args[1])
+		os.Exit(2)
 	}
 }
-
-func atoi(s string) int { n := 0; fmt.Sscanf(s, "%d", &n); return n }
